@@ -275,10 +275,12 @@ func init() {
 			if c := t.Children(); c != nil {
 				listing(c)
 			}
-			ps, _ := t.Parents(uint(I(op, "parents")))
+			ps, frontier := t.Parents(uint(I(op, "parents")))
 			show(t)
 			show(ps...)
 			res["parents"] = dumpList(ps)
+			/* where the thread continues above what was asked for */
+			res["frontier"] = pub.VerifDump(frontier)
 		} else if c, ok := item.(*pub.Collection); ok {
 			listing(c)
 		}
